@@ -170,7 +170,7 @@ class C20(DiffProperty):
         """property level view: error kinds are not constrained; the return value of the by-name x / y lookup of a
         text is not a property value"""
         head, sep, rest = tok.partition("|")
-        if re.fullmatch(r"E\d+", head):
+        if re.fullmatch(r"E\d*", head):
             head = "R"
         elif head == "qE":
             head = "qR"
